@@ -179,7 +179,7 @@ func emitRast(c *hlib.Ctx, s model2d.Solid, scale float64, ss int, family string
 	}
 	for _, v := range vs {
 		v := v
-		c.EmitSite(opBase+" "+v.tag, guarded(func() string { return imgHash(v.run(), g.w, g.h) }), "corr:c12 rast/"+fnOf(v.tag))
+		emitCase(c, opBase+" "+v.tag, "corr:c12 rast/"+fnOf(v.tag), func() string { return imgHash(v.run(), g.w, g.h) })
 		c.Stat("c12.rast.cases", 1)
 	}
 }
